@@ -1,0 +1,197 @@
+//go:build verif
+
+package p2c
+
+import (
+	"context"
+	"encoding/json"
+	"errors"
+	"math"
+	"math/rand"
+	"strconv"
+	"sync/atomic"
+	"testing"
+	"time"
+
+	"github.com/gotid/god/internal/verifdrv"
+	"github.com/gotid/god/lib/timex"
+	"google.golang.org/grpc/balancer"
+	"google.golang.org/grpc/balancer/base"
+	"google.golang.org/grpc/codes"
+	"google.golang.org/grpc/resolver"
+	"google.golang.org/grpc/status"
+)
+
+// verifSource is a scripted rand.Source: Int63 returns the scripted values in order (0 once exhausted).
+type verifSource struct {
+	vals []int64
+	pos  int
+	over int
+}
+
+func (s *verifSource) Int63() int64 {
+	if s.pos < len(s.vals) {
+		v := s.vals[s.pos]
+		s.pos++
+		return v
+	}
+	s.over++
+	return 0
+}
+
+func (s *verifSource) Seed(int64) {}
+
+type verifOp struct {
+	Op    string  `json:"op"`    // pick | done | adv
+	Draws []int64 `json:"draws"` // pick: values returned by successive Intn calls (a, b, a, b, ...)
+	K     int     `json:"k"`     // done: index of the successful pick whose Done func is called
+	Code  int     `json:"code"`  // done: -1 nil error, -2 plain (non status) error, else grpc status code
+	Codes []int   `json:"codes"` // done: optional, the code to use per position of the completed conn
+	Dt    int64   `json:"dt"`    // adv: nanoseconds
+}
+
+type verifCase struct {
+	N     int       `json:"n"`     // number of ready connections
+	Start int64     `json:"start"` // initial reading of the virtual clock (ns)
+	Ops   []verifOp `json:"ops"`
+}
+
+type verifStep struct {
+	Idx   int        `json:"idx"`   // pick: position of the chosen conn in p.conns (-1 none)
+	ID    int        `json:"id"`    // pick: identity of the returned SubConn (-1 none)
+	Err   string     `json:"err"`   // pick: "" | "noconn" | "other"
+	Used  int        `json:"used"`  // pick: number of Int63 values consumed
+	Over  int        `json:"over"`  // pick: draws requested beyond the script
+	Conn  int        `json:"conn"`  // done: position of the completed conn
+	Code  int        `json:"code"`  // done: the code used
+	Td    int64      `json:"td"`    // done: now - last (clamped at 0), as the done func will compute it
+	WBits uint64     `json:"wbits"` // done: math.Float64bits(math.Exp(float64(-td)/float64(decayTime)))
+	Now   int64      `json:"now"`
+	Conns [][]uint64 `json:"conns"` // lag, inflight(two's complement), success, requests, last, pick
+	Stamp int64      `json:"stamp"`
+}
+
+func verifDump(p *p2cPicker) [][]uint64 {
+	out := make([][]uint64, len(p.conns))
+	for i, c := range p.conns {
+		out[i] = []uint64{
+			atomic.LoadUint64(&c.lag),
+			uint64(atomic.LoadInt64(&c.inflight)),
+			atomic.LoadUint64(&c.success),
+			uint64(atomic.LoadInt64(&c.requests)),
+			uint64(atomic.LoadInt64(&c.last)),
+			uint64(atomic.LoadInt64(&c.pick)),
+		}
+	}
+	return out
+}
+
+// TestVerifDriver builds the picker through p2cPickerBuilder with fake SubConns, replaces the random
+// source by a scripted one, runs the history on the virtual clock and dumps every counter after each step.
+func TestVerifDriver(t *testing.T) {
+	defer timex.VerifClockOff()
+	verifdrv.Run(t, func(raw json.RawMessage) any {
+		var c verifCase
+		if err := json.Unmarshal(raw, &c); err != nil {
+			return map[string]any{"error": err.Error()}
+		}
+		timex.VerifSetNow(time.Duration(c.Start))
+		ready := make(map[balancer.SubConn]base.SubConnInfo)
+		ids := make(map[balancer.SubConn]int)
+		for i := 0; i < c.N; i++ {
+			sc := mockClientConn{id: "verif-" + strconv.Itoa(i)}
+			ready[sc] = base.SubConnInfo{Address: resolver.Address{Addr: strconv.Itoa(i)}}
+			ids[sc] = i
+		}
+		picker := new(p2cPickerBuilder).Build(base.PickerBuildInfo{ReadySCs: ready})
+		p, isP2c := picker.(*p2cPicker)
+		src := &verifSource{}
+		order := []int{}
+		if isP2c {
+			p.r = rand.New(src)
+			for _, sc := range p.conns {
+				id, ok := ids[sc.conn]
+				if !ok {
+					id = -1
+				}
+				order = append(order, id)
+			}
+		}
+		type token struct {
+			done func(balancer.DoneInfo)
+			conn int
+		}
+		var tokens []token
+		steps := make([]verifStep, 0, len(c.Ops))
+		for _, op := range c.Ops {
+			st := verifStep{Idx: -1, ID: -1, Conn: -1}
+			switch op.Op {
+			case "adv":
+				timex.VerifAdvance(time.Duration(op.Dt))
+			case "pick":
+				src.vals = src.vals[:0]
+				for _, d := range op.Draws {
+					src.vals = append(src.vals, d<<32)
+				}
+				src.pos, src.over = 0, 0
+				res, err := picker.Pick(balancer.PickInfo{FullMethodName: "/", Ctx: context.Background()})
+				st.Used, st.Over = src.pos, src.over
+				switch {
+				case err == nil:
+					if id, ok := ids[res.SubConn]; ok {
+						st.ID = id
+					}
+					if isP2c {
+						for j, sc := range p.conns {
+							if sc.conn == res.SubConn {
+								st.Idx = j
+							}
+						}
+					}
+					tokens = append(tokens, token{done: res.Done, conn: st.Idx})
+				case errors.Is(err, balancer.ErrNoSubConnAvailable):
+					st.Err = "noconn"
+				default:
+					st.Err = "other"
+				}
+			case "done":
+				if op.K < 0 || op.K >= len(tokens) {
+					return map[string]any{"error": "done: no such token"}
+				}
+				tk := tokens[op.K]
+				st.Conn = tk.conn
+				if isP2c && tk.conn >= 0 {
+					td := int64(timex.Now()) - atomic.LoadInt64(&p.conns[tk.conn].last)
+					if td < 0 {
+						td = 0
+					}
+					st.Td = td
+					st.WBits = math.Float64bits(math.Exp(float64(-td) / float64(decayTime)))
+				}
+				code := op.Code
+				if tk.conn >= 0 && tk.conn < len(op.Codes) {
+					code = op.Codes[tk.conn]
+				}
+				st.Code = code
+				var err error
+				switch {
+				case code == -1:
+				case code == -2:
+					err = errors.New("plain")
+				default:
+					err = status.Error(codes.Code(code), "verif")
+				}
+				tk.done(balancer.DoneInfo{Err: err})
+			default:
+				return map[string]any{"error": "unknown op " + op.Op}
+			}
+			st.Now = int64(timex.Now())
+			if isP2c {
+				st.Conns = verifDump(p)
+				st.Stamp = int64(p.stamp.Load())
+			}
+			steps = append(steps, st)
+		}
+		return map[string]any{"order": order, "p2c": isP2c, "steps": steps}
+	})
+}
